@@ -27,7 +27,7 @@ def handle(rep, recs):
 def run(tier, rep):
     thorough = tier == "thorough"
     rep.assumptions += [
-        "declaration kinds: field, const, object, array, custom_func(concat), field with computed xpath (xpath_dynamic: field or const; only computed values that denote an existing path name, nothing, or a failure); "
+        "declaration kinds: field, const, external, object, array, custom_func (concat, coalesce, upper, and a user function with the typed signature (string, int64, float64, bool) registered by an Extension), field with computed xpath (xpath_dynamic: field or const; only computed values that denote an existing path name, nothing, or a failure); "
         "template and constant xpath_dynamic are also exercised as alternative renderings of the same tree (inlined = referenced; constant xpath_dynamic = xpath)",
         "streams (Stream.tla) are replayed as XML only: the documents have equally named siblings, which JSON objects cannot express",
         "types: none/int/float/boolean/string over the alphabet {1,2,x,y,space} for texts, and the full conversion matrix over typed sources (script results int 7, float 1.5, bool true, strings '1' '1.5' 'x' 'true'); calls are well-typed (ill-typed custom_func arguments are C03's concern)",
@@ -37,6 +37,7 @@ def run(tier, rep):
             ("order", dict(Family='"order"', M=13, Part=0, Parts=1, EmitMod=1, DocN=2)),
             ("cast", dict(Family='"cast"', M=3, Part=0, Parts=1, EmitMod=1 if thorough else 3, DocN=2)),
             ("ietwin", dict(Family='"ietwin"', M=4, Part=0, Parts=1, EmitMod=1, DocN=1)),
+            ("sig", dict(Family='"sig"', M=6, Part=0, Parts=1, EmitMod=1 if thorough else 2, DocN=3 if thorough else 2)),
             ("dyn", dict(Family='"dyn"', M=5, Part=0, Parts=1, EmitMod=1 if thorough else 2, DocN=3)),
             ("all M=2", dict(Family='"all"', M=2, Part=0, Parts=1, EmitMod=1, DocN=3))]
     if thorough:
@@ -99,7 +100,7 @@ def run(tier, rep):
     rep.cov["rule"] = ("B1: declaration trees (M nodes over 34 node variants: field/const/object/array/concat x xpath x type x no_trim x keep) "
                        "x records (<=3 nodes), plus the directed families 'collide' (identical declarations in anchoring and non-anchoring "
                        "position), 'order' (array with 11 elements) and 'dyn' (xpath_dynamic whose computation succeeds, is empty or fails, next to a "
-                       "declaration with the same text), 'cast' (every typed source x every result type), 'ietwin' (script calls differing only in ignore_error, one throwing); Stream.tla: every input of <=3/4 records and persistent siblings x targets /*/b, /*/* x declaration "
+                       "declaration with the same text), 'cast' (every typed source x every result type), 'ietwin' (script calls differing only in ignore_error, one throwing), 'sig' (a call of a user function (string, int64, float64, bool) with every argument present, absent or empty: absent ones arrive as their own parameter's zero value); Stream.tla: every input of <=3/4 records and persistent siblings x targets /*/b, /*/* x declaration "
                        "trees that read outside the record (`..`-anchored objects, ../a, ../b), expected value per record from the partial tree at "
                        "delivery time; each rendered three ways (inline, every subtree as a template, "
                        "xpath_dynamic) for XML and JSON input; expectations from RefEval in Eval.tla. B2: random trees (<=8/10 nodes) and "
